@@ -176,6 +176,10 @@ mut("eq-cbc-reset-only-if-padded", ["C10"], "crysp/mode.py",
 mut("ok-no-close", ["C09", "C10", "C14"], "crysp/padding.py",
     "            yield Pi\n        P.close()\n", "            yield Pi\n",
     "behaviour-preserving: in-memory cursor is not closed explicitly", expect="clean")
+mut("ok-nullpad-no-extra-block", ["C09"], "crysp/padding.py",
+    "        if padding:\n            cnt = self.bitcnt\n",
+    "        if padding:\n            if len(Pi)==0 and self.bitcnt>0 and type(self).__name__=='Nullpadding':\n                self.padflag = True\n                return\n            cnt = self.bitcnt\n",
+    "zero padding emits no extra all-zero block for an empty final piece after continuation data: an equally valid reading of 'minimum number of blocks'", expect="clean")
 # a second defect on the kind of an open known finding must still be reported
 mut("c10-nullpad-other-defect", ["C10"], "crysp/padding.py",
     "        b=Bits(m[-self.blocklen:])\n        b.size -= self.padcnt\n        return m[:-self.blocklen]+b.bytes()",
